@@ -63,7 +63,10 @@ pub fn miri_calls(pool: &Pool, seed: u64, n: usize) -> String {
         while count < per && guard < per * 400 {
             guard += 1;
             let e = &pool.entries[r.below(pool.entries.len())];
-            if e.call.ev != ev || e.ticks > 120 || e.call.expr.contains('\t') || e.call.expr.contains('\n') || e.call.expr.contains('\r') {
+            // cheap calls only (Miri is ~1000x slower than native): short texts, few ticks (the tick scale depends on
+            // whether the simulator build counts block and memory ticks)
+            let tick_limit = if crate::tick::bb_guards() > 0 { 40_000 } else { 120 };
+            if e.call.ev != ev || e.ticks > tick_limit || e.call.expr.chars().count() > 28 || e.call.expr.contains('\t') || e.call.expr.contains('\n') || e.call.expr.contains('\r') {
                 continue;
             }
             if !e.call.expr.contains('@') && r.chance(0.7) {
